@@ -53,6 +53,8 @@ const (
 	kpSendErrno
 	kpImmutableKernel
 	kpRecvSpoofMulticast
+	kpRecvSpoofHighPid
+	kpStatusKept
 	nKProbes
 )
 
@@ -63,7 +65,7 @@ var kProbeNames = []string{"unsolicited_record_skipped_inside_call", "eagain_x9_
 	"waitacks_with_nothing_pending", "waitacks_called_again_after_error", "repeated_close_was_noop", "second_close_blocked_in_once",
 	"close_cleared_pid", "getrules_buffer_overwritten_later", "sends_overlapped_in_time", "receive_short_datagram", "receive_foreign_port_id",
 	"receive_non_netlink_address", "short_after_long_datagram", "send_payload_8970", "send_with_caller_pid", "porcupine_histories_checked",
-	"sendto_failed", "kernel_immutable", "receive_foreign_port_id_with_group_mask"}
+	"sendto_failed", "kernel_immutable", "receive_foreign_port_id_with_group_mask", "receive_foreign_port_id_2^31_or_more", "getstatus_result_checked_again_at_end"}
 
 var kFaultNames = []string{"injected_errno", "unsolicited_records", "stale_reply", "delayed_reply", "truncated_or_padded_reply", "spoofed_datagram",
 	"recv_eintr", "recv_eagain_injected", "recv_eagain_natural", "sendto_errno", "concurrent_close_tasks", "concurrent_send_tasks"}
@@ -83,6 +85,12 @@ const (
 	kfConcSend
 	nKFaults
 )
+
+type keptStatus struct {
+	st   *libaudit.AuditStatus
+	want [kern.NWords]uint32
+	op   int
+}
 
 type keptRules struct {
 	got  [][]byte
@@ -106,6 +114,7 @@ type kctx struct {
 	setPID      bool
 	closes      int
 	kept        []keptRules
+	keptSt      []keptStatus
 	hadWaitErr  bool
 	h           uint64
 	sentSeqs    []uint32
@@ -464,6 +473,7 @@ func (c *kctx) execOp(i int, op KOp) {
 				if want != got && judge {
 					c.viol("status-mismatch", name, "GetStatus returned %v, the kernel sent %v (reply of %d bytes)", got, want, len(r.StatusSent))
 				}
+				c.keptSt = append(c.keptSt, keptStatus{st: st, want: want, op: i})
 				if f := faultOf(c.p, r.Idx); f.UnsolAfter > 0 {
 					c.res.Probes[kpUnsolBetweenAckAndData]++
 				}
@@ -663,6 +673,7 @@ func (c *kctx) judgeWire(i int, op KOp, reqs []*kern.Request, st *libaudit.Audit
 	if want != got {
 		c.viol("status-mismatch", strconv.Itoa(n), "GetStatus returned %v, the kernel laid out %v in a %d-byte reply", got, want, n)
 	}
+	c.keptSt = append(c.keptSt, keptStatus{st: st, want: want, op: i})
 	// exported feature bits, tested by name against what the kernel advertised
 	sent := want[kern.WFeatureBitmap]
 	feat := []struct {
@@ -906,6 +917,12 @@ func (c *kctx) judgeFirstCloseTraffic(reqs []*kern.Request) {
 
 // finish evaluates end-of-run checks.
 func (c *kctx) finish() {
+	for _, ks := range c.keptSt {
+		c.res.Probes[kpStatusKept]++
+		if got := statusWords(ks.st); got != ks.want {
+			c.viol("status-changed-later", "GetStatus", "the status returned by GetStatus in op #%d changed after later calls: now %v, the kernel had sent %v for that request", ks.op, got, ks.want)
+		}
+	}
 	for _, kr := range c.kept {
 		if !equalRules(kr.got, kr.want) {
 			if c.prop == "C17" || c.prop == "C08" {
@@ -1231,12 +1248,18 @@ func (c *kctx) execRecvRaw(i int, op KOp) {
 	}
 	switch op.B {
 	case 0:
-		fromPid = groups << 8 // the kernel, possibly as a multicast (port id 0, group mask set)
+		// the kernel, possibly as a multicast (port id 0, group mask set)
 	case 1:
-		fromPid = (200+uint32(i))&0xff | groups<<8 | 1<<24
+		fromPid = uint32(op.D)
+		if fromPid == 0 {
+			fromPid = 4000 + uint32(i)
+		}
 		c.res.Probes[kpRecvSpoofPid]++
 		if groups != 0 {
 			c.res.Probes[kpRecvSpoofMulticast]++
+		}
+		if fromPid >= 1<<31 {
+			c.res.Probes[kpRecvSpoofHighPid]++
 		}
 	case 2:
 		nonNL = true
@@ -1252,7 +1275,7 @@ func (c *kctx) execRecvRaw(i int, op KOp) {
 	for _, d := range c.k.Queue {
 		d.Consumed = true // replies to earlier Send operations are not what this operation is about
 	}
-	c.k.Inject(data, fromPid, nonNL)
+	c.k.Inject(data, fromPid, nonNL).Groups = groups
 	via := op.C & 1
 	var gotType int = -1
 	var gotData []byte
